@@ -337,7 +337,7 @@ void dfs(Node &n, int depth, std::vector<int> &path, int lo, int hi, int maxtier
         report("abort", path, std::string("query aborts: ") + e.what());
       }
       uint64_t key = state_key(m);
-      distinct_states.insert(key);
+      if (distinct_states.size() < 2000000) distinct_states.insert(key);
       int remaining = MAXD - depth - 1;
       auto it = seen.find(key);
       if (it != seen.end() && it->second >= remaining)
